@@ -174,6 +174,9 @@ type connScript struct {
 	client  [][]byte
 	layout  adnlsrv.Layout // server->client stream: confirmation frame, then server frames
 	plan    adnlsrv.Plan
+	// connectMs > 0: NewConnection gets a context that expires after so many milliseconds, and the client
+	// starts sending only after that moment (a connect timeout must not outlive the connect).
+	connectMs int
 }
 
 func (s *connScript) String() string {
@@ -184,6 +187,9 @@ func (s *connScript) String() string {
 		if f.pong {
 			sb.WriteString(" (pong)")
 		}
+	}
+	if s.connectMs > 0 {
+		fmt.Fprintf(&sb, "; connect context expires after %d ms, client traffic starts after that", s.connectMs)
 	}
 	sb.WriteString("; client->server")
 	for _, p := range s.client {
@@ -233,6 +239,10 @@ func drawConnScript(c *core.Ctx, big bool) *connScript {
 		}
 	}
 	s.plan = drawPlan(c, s.layout, true)
+	if s.plan.Fault.Kind == adnlsrv.FaultNone && len(s.client) > 0 && rare(c, "connect.deadline", 5) {
+		s.connectMs = c.Range("connect.ms", 250, 700)
+		c.Class("connection used after the deadline of its connect context")
+	}
 	return s
 }
 
@@ -344,9 +354,23 @@ func runConn(s *connScript) (err error) {
 		return fmt.Errorf("%s\n  script: %v%s", fmt.Sprintf(format, args...), s, ev.String())
 	}
 
-	ctx, cancel := context.WithTimeout(context.Background(), waitLimit)
+	connectLimit := waitLimit
+	if s.connectMs > 0 {
+		connectLimit = time.Duration(s.connectMs) * time.Millisecond
+	}
+	ctx, cancel := context.WithTimeout(context.Background(), connectLimit)
 	defer cancel()
 	conn, cerr := liteclient.NewConnection(ctx, []byte(srv.PublicKey()), srv.Addr())
+	if s.connectMs > 0 {
+		if cerr != nil && ctx.Err() != nil {
+			inconclusive.Add(1) // the machine was too slow for the short connect timeout: no statement
+			return nil
+		}
+		if cerr == nil {
+			<-ctx.Done()
+			time.Sleep(40 * time.Millisecond)
+		}
+	}
 	if hs := srv.HandshakeErrors(); len(hs) > 0 {
 		return report("the reference server refused the client's handshake: %v", hs[0])
 	}
